@@ -23,7 +23,7 @@ from checks.c05 import payload, BOUNDARY
 PROP = "C14"
 LEVEL = "exploration"
 RULE = ("seeded scenarios: populated parent-closed topology of 5..16 nodes over levels 0..4 (several per level), per-node "
-        "allow_multicast on/off, at most one relaying node (levels 1..3, sometimes 4), MCU jitter, sometimes a failed unicast (absent neighbour) right before the multicast, a third of the nodes constructed with another address (any level) and re-addressed before start, a relay whose slow application has 5/6 unread messages queued, bursts of 2-3 multicasts (same type or not) to applications that read late; 1..3 multicasts from every sender class (master, "
+        "allow_multicast on/off, at most one relaying node (levels 1..3, sometimes 4), MCU jitter, sometimes a failed unicast (absent neighbour) right before the multicast, a third of the nodes constructed with another address (any level) and re-addressed before start, a relay whose slow application has 5/6 unread messages queued, bursts of 2-3 multicasts (same type or not) to applications that read late, frame-id counters seeded per node (wrap-around included); 15 % of the runs lossy with only the safety clauses (nothing garbled, nobody else, nothing acknowledged); 1..3 multicasts from every sender class (master, "
         "first child 0o1, other level-1 node, deeper levels) x target level in {default, 0..4}, lengths 0..144 (boundary "
         "biased), types 0..127. Non-trivial: the target level holds at least one other listening node; distinct = distinct "
         "abstract event sequences")
@@ -139,12 +139,22 @@ def make(i, base_seed, tier):
     for nd in nodes:
         if nd["addr"] in senders or nd["addr"] == 0:
             nd["allow"] = True   # multicast() on a node that has the feature switched off is not generated
-    return {"seed": seed, "nodes": nodes, "casts": casts, "relay_node": relay_node, "lazy": lazy}
+    for nd in nodes:
+        # every node's frame-id counter starts at a seeded value, wrap-around included
+        nd["fid"] = xr.choice([0, 1, 0xFFFD, 0xFFFE, 0xFFFF, xr.getrandbits(16)])
+    faults = []
+    if xr.random() < 0.15:
+        # lossy configuration (separate from the property's loss-free premise): only the safety clauses are enforced - whatever a
+        # node's application dequeues is a complete multicast that was sent, on the right level; nothing is acknowledged
+        ar = stream(seed, "air")
+        p = xr.choice([0.05, 0.15, 0.3])
+        faults = [{"n": n} for n in range(400) if ar.random() < p]
+    return {"seed": seed, "nodes": nodes, "casts": casts, "relay_node": relay_node, "lazy": lazy, "faults": faults}
 
 
 def run(scn):
     res = Result()
-    w = World(scn["seed"], max_events=3_000_000, max_time=120_000 * MS)
+    w = World(scn["seed"], plan=scn.get("faults"), max_events=3_000_000, max_time=120_000 * MS)
     net = Net(w)
     try:
         _run(scn, w, net, res)
@@ -169,7 +179,8 @@ def _run(scn, w, net, res):
                 node.node_address = node.node_address   # documented: affects pipe 0 when setting the node_address
             if nd["relay"]:
                 node.multicast_relay = True
-        net.add(nd["addr"], "net", nd["addr"] if nd.get("first_addr") is None else nd["first_addr"], knobs=nd["knobs"], setup=setup)
+        nc_ = net.add(nd["addr"], "net", nd["addr"] if nd.get("first_addr") is None else nd["first_addr"], knobs=nd["knobs"], setup=setup)
+        nc_.mcu.next_id = nd.get("fid", 0)
         allow[nd["addr"]] = nd["allow"]
     # ---- deaf (registers)
     for a, nc in net.nodes.items():
@@ -183,6 +194,7 @@ def _run(scn, w, net, res):
     sim.advance(3 * MS)
     relay_node = scn.get("relay_node")
     addrs = set(net.nodes)
+    lossy = bool(scn.get("faults"))
     lazy = scn.get("lazy")
     relay_full = False
     prefill = set()
@@ -245,7 +257,7 @@ def _run(scn, w, net, res):
             if k in targets:
                 if k == relay_node and relay_full:
                     continue   # a full queue cannot take the frame (bounded queue, C12); the re-broadcast is still owed
-                if len(match) != 1:
+                if len(match) != 1 and not lossy:
                     res.add("who", dict(sig, kind="missed" if not match else "duplicate"),
                             "node %o (level %d, allows multicast) dequeued the multicast from %o to level %d %d times (multicast() returned %r)"
                             % (k, netref.level(k), src, L, len(match), c.result))
@@ -263,7 +275,7 @@ def _run(scn, w, net, res):
                     res.add("unacked", dict(sig, kind="ack_requested"), "node %o transmitted a multicast frame requesting an acknowledgement" % k)
                     break
         # ---- relay
-        if relayed_levels and m["len"] <= 24 and L <= 3:
+        if relayed_levels and m["len"] <= 24 and L <= 3 and not lossy:
             R = net.nodes[relay_node]
             want_addr = netref.pipe_address(netref.lvl_addr(L + 1), 0)
             tx = [t for t in w.air.trace[a0:] if t["src"] == "n%s" % relay_node and not t["ack"]]
@@ -287,6 +299,7 @@ def _run(scn, w, net, res):
 
 def _burst(m, w, net, res, allow, addrs):
     sim = w.sim
+    lossy = bool(w.air.plan.rules)
     src = m["src"]
     L = netref.level(src) if m["level"] is None else m["level"]
     targets = {a for a in addrs if netref.level(a) == L and allow[a] and a != src}
@@ -319,7 +332,7 @@ def _burst(m, w, net, res, allow, addrs):
         got = [(e[1], e[3], e[4]) for e in nc.log[marks[k]:]]
         for (t, d) in msgs:
             n = got.count((src, t, d))
-            if k in targets and n != 1:
+            if k in targets and n != 1 and not lossy:
                 res.add("who", dict(sig, kind="missed" if n == 0 else "duplicate"),
                         "node %o (level %d, allows multicast) dequeued message %d of a burst of %d multicasts from %o to level %d %d times (multicast() returned %r)"
                         % (k, netref.level(k), msgs.index((t, d)) + 1, len(msgs), src, L, n, c.result))
